@@ -520,6 +520,7 @@ def part_d(ctx):
     terms, meta = [], []
     rterms, rmeta, rbad = [], [], []
     uterms, umeta = [], []
+    tails = 0
     depth_hist = {}
     top_hist = {}
     kind_hist = {}
@@ -542,7 +543,23 @@ def part_d(ctx):
                 params[lvl_] = [(g.new(), x) for x in pn]
             g.budget = g.max_stmts
             g.loop_depth = 0
-            bodies.append(g.program(lo=2, hi=4, prologue=ctx.rng.choice([0.2, 0.5])))
+            body_ = g.program(lo=2, hi=4, prologue=ctx.rng.choice([0.2, 0.5]))
+            if lvl_ < depth - 1 and ctx.rng.random() < 0.35:
+                # directed tail (seeded C01-r9-1): a statement that opens an 'assign-targets' flow
+                # (`x, g.s[x], y = ...` / `x = g.s[x] = ...`) followed only by plain bindings - the flow the
+                # scope exports to the nested levels must be the one behind them
+                if ctx.rng.random() < 0.5:
+                    b1, b2 = g.bind(), g.bind()
+                    if b2[1] == b1[1]:
+                        b2 = (b2[0], [n_ for n_ in names if n_ != b1[1]][0])
+                    body_.append(('assign', g.reads(0, 1), [b1, b2], 'tuplesub', [(g.new(), b1[1])]))
+                else:
+                    b1 = g.bind()
+                    body_.append(('assign', g.reads(0, 1), [b1], 'chainsub', [(g.new(), b1[1])]))
+                for _ in range(ctx.rng.randint(1, 2)):
+                    body_.append(('assign', g.reads(0, 1), [g.bind()], 'plain'))
+                tails += 1
+            bodies.append(body_)
             ranges.append((lo, g.site))
         splits = [ctx.rng.randrange(0, len(b)) for b in bodies]
         try:
@@ -577,7 +594,7 @@ def part_d(ctx):
             ctx.count(('D', src, lvl), nontrivial=free)
             terms.append('([%s], %s, [%s], [%s])' % ('; '.join(kcoq(i, b) for i, b in enumerate(bodies[:lvl])), kcoq(lvl, bodies[lvl]),
                                                     '; '.join(items), '; '.join(str(x) for x in e02s)))
-            meta.append((src, lvl, bodies, splits))
+            meta.append((src, lvl, bodies, splits, params, top, kinds, reads, sorted(obs['e02'] | obs['e42'])))
         kind_hist[tuple(kinds)] = kind_hist.get(tuple(kinds), 0) + 1
         if top == 'func' and 'cls' not in kinds:
             uterms.append('([%s], [%s])' % ('; '.join(mcoq(i, b) for i, b in enumerate(bodies)), '; '.join(str(x) for x in sorted(obs['unused']))))
@@ -632,16 +649,45 @@ def part_d(ctx):
         ctx.violation('(R) correspondence Model/NestedRun.v vs CPython (or the instance of C01_chain_run_visible) no longer checks on %d executions of chains of nested functions' % len(bad_r),
                       {'kind': 'correspondence-ref-nested', 'theorem': 'run_chain semantics / C01_chain_run_visible', 'code': code, 'decisions': eff, 'trace': log}, found_input=False)
     cov['D_chains'] = nchain
+    cov['D_directed_assign_target_tails'] = tails
     cov['D_outermost'] = dict(top_hist)
     cov['D_chains_with_class_levels'] = sum(v for k_, v in kind_hist.items() if 'cls' in k_)
     cov['D_chain_depths'] = {str(a): b for a, b in sorted(depth_hist.items())}
     cov['D_levels_compared'] = len(terms)
     cov['D_disagreements'] = len(bad)
     if bad:
-        src, lvl, bodies, splits = meta[bad[0]]
-        ctx.violation('(I) correspondence Model/Nested.v vs supp no longer checks on %d scope levels of generated chains of nested functions' % len(bad),
-                      {'kind': 'correspondence-nested', 'theorem': 'C01_nested_visible (model tie)', 'source': src, 'level': lvl,
-                       'bodies': bodies, 'splits': splits}, found_input=False)
+        # search for a concrete failing input: a read of a disagreeing chain that lint reports undefined
+        # although it succeeds when the chain (every level calling the next as its last statement) runs
+        found = None
+        seen_src = set()
+        for bi in bad:
+            src, lvl, bodies, splits, params, top, kinds, reads, e02s = meta[bi]
+            if src in seen_src or 'cls' in kinds or not e02s:
+                continue
+            seen_src.add(src)
+            if len(seen_src) > 6:
+                break
+            try:
+                code = render_nested_instrumented(bodies, [min(sp, len(b)) for sp, b in zip(splits, bodies)], params, top)
+                runs, _ex = rc.enumerate_decisions(rc.Oracle(code, top, cont=True), 150)
+            except Exception:
+                continue
+            for eff, log, err in runs:
+                hit = [r_ for r_, v in log if v is not None and r_ in e02s]
+                if hit and not err:
+                    found = (src, reads.get(hit[0]), eff, code)
+                    break
+            if found:
+                break
+        if found:
+            src, pos, eff, code = found
+            ctx.violation('lint reports a read undefined that succeeds at run time in a chain of nested functions (line %s col %s, name %s)' % tuple(pos or ('?', '?', '?')),
+                          {'kind': 'direct-D', 'source': src, 'position': list(pos or ()), 'decisions': eff, 'instrumented': code})
+        else:
+            src, lvl, bodies, splits = meta[bad[0]][:4]
+            ctx.violation('(I) correspondence Model/Nested.v vs supp no longer checks on %d scope levels of generated chains of nested functions' % len(bad),
+                          {'kind': 'correspondence-nested', 'theorem': 'C01_nested_visible (model tie)', 'source': src, 'level': lvl,
+                           'bodies': bodies, 'splits': splits}, found_input=False)
 
 
 def known_findings(ctx):
@@ -697,6 +743,13 @@ def replay(ctx, obj):
         print(r['source'])
         print('lint at', r['position'], ':', hit)
         return 1 if hit or r['kind'] == 'direct-B-assist' else 0
+    if r.get('kind') == 'direct-D' and r.get('position'):
+        proj, d = rc.project(ctx)
+        res = lint(proj, r['source'], os.path.join(d, 'gen_case.py'))
+        hit = [x[:4] for x in res if [x[2], x[3]] == r['position'][:2] and x[0] in ('E02', 'E42')]
+        print(r['source'])
+        print('lint at', r['position'], ':', hit, '(the read succeeds under CPython with decisions %s)' % r.get('decisions'))
+        return 1 if hit else 0
     if r.get('kind', '').startswith('direct-C'):
         res = lint(Project(['/nonexistent']), open(r['file']).read(), r['file'])
         hit = [x[:4] for x in res if [x[2], x[3]] == r['position']]
